@@ -28,6 +28,12 @@ let rec rev = function
 | [] -> []
 | x :: l' -> app (rev l') (x :: [])
 
+(** val flat_map : ('a1 -> 'a2 list) -> 'a1 list -> 'a2 list **)
+
+let rec flat_map f = function
+| [] -> []
+| x :: t -> app (f x) (flat_map f t)
+
 (** val fold_left : ('a1 -> 'a2 -> 'a1) -> 'a2 list -> 'a1 -> 'a1 **)
 
 let rec fold_left f l a0 =
@@ -266,13 +272,12 @@ let rec do_clean_target fuel dry g t s =
   match fuel with
   | O -> None
   | S f ->
+    let s0 = mark_cleaned t s in
     (match in_edge g t with
      | Some e ->
-       let s1 = if e.e_phony then s else clean_edge dry e s in
-       (match clean_inputs (do_clean_target f dry g) e.e_ins s1 with
-        | Some s2 -> Some (mark_cleaned t s2)
-        | None -> None)
-     | None -> Some (mark_cleaned t s))
+       let s1 = if e.e_phony then s0 else clean_edge dry e s0 in
+       clean_inputs (do_clean_target f dry g) e.e_ins s1
+     | None -> Some s0)
 
 (** val clean_targets_loop :
     nat -> bool -> graph -> path list -> cl -> cl option **)
@@ -290,7 +295,7 @@ let rec clean_targets_loop fuel dry g ts s =
 (** val default_fuel : graph -> nat **)
 
 let default_fuel g =
-  S (length g.g_edges)
+  S (length (flat_map (fun e -> e.e_ins) g.g_edges))
 
 (** val clean_targets_fuel :
     nat -> bool -> graph -> disk -> path list -> cl option **)
@@ -306,10 +311,12 @@ let clean_targets dry g d ts =
 (** val clean_rule_edge : bool -> n -> cl -> edge -> cl **)
 
 let clean_rule_edge dry r s e =
-  if N.eqb e.e_rule r
-  then fold_left (fun s0 o -> remove_edge_files dry e (remove dry o s0))
-         e.e_outs s
-  else s
+  if e.e_phony
+  then s
+  else if N.eqb e.e_rule r
+       then fold_left (fun s0 o -> remove_edge_files dry e (remove dry o s0))
+              e.e_outs s
+       else s
 
 (** val do_clean_rule : bool -> graph -> n -> cl -> cl **)
 
